@@ -35,6 +35,7 @@ type Sel struct {
 type Ptr struct {
 	Obj  *Obj // nil => nil pointer
 	Path []Sel
+	NilC *Term // when non-nil: the pointer is nil exactly when NilC holds (Obj is then the non-nil target)
 	Span *Term // number of elements addressable from this pointer within the slice/array it was taken from (nil: unknown)
 }
 
@@ -78,7 +79,7 @@ type Tuple []Value
 type UConst struct{ V interface{} } // *big.Int or bool
 
 func (p *Ptr) with(s Sel) *Ptr {
-	np := &Ptr{Obj: p.Obj, Path: make([]Sel, len(p.Path)+1)}
+	np := &Ptr{Obj: p.Obj, Path: make([]Sel, len(p.Path)+1), NilC: p.NilC}
 	copy(np.Path, p.Path)
 	np.Path[len(p.Path)] = s
 	return np
